@@ -514,6 +514,11 @@ QUICK_PAIRS = [
     ("S2", "add_to_file/ancestor_needs_extension", "serialize_files/model"), ("S2", "add_to_file/ancestor_needs_extension", "serialize/element"),
     ("S2", "add_to_file/ancestor_needs_extension", "serialize/file"), ("S2", "add_to_file/ancestor_needs_extension", "sort/model"),
     ("S2", "add_to_file/ancestor_needs_extension", "remove_sub_element/subtree"), ("S2", "add_to_file/ancestor_needs_extension", "elements_dfs/model"),
+    # lookups of a sub element that is not the first child, against writers that REORDER the parent's content (the element is a sub element
+    # in every state: a lookup that misses it, or a spurious ElementNotFound, is not serializable)
+    ("S1", "get_sub_element/last_kind", "move_element_here_at/same_parent_front"), ("S1", "get_sub_element/last_kind", "sort/element"),
+    ("S1", "get_sub_element/last_kind", "move_element_here_at/same_parent"),
+    ("S1", "remove_sub_element_kind/last_kind", "move_element_here_at/same_parent_front"), ("S1", "remove_sub_element_kind/last_kind", "sort/element"),
     # file operations that delete a package restricted to the removed file, against READERS of the package's parent
     ("S2", "remove_file/second", "get_sub_element/pkgs_byname"), ("S2", "remove_file/second", "serialize/pkgs"),
     ("S2", "remove_file/second", "serialize/file"), ("S2", "remove_from_file/second", "get_sub_element/pkgs_byname"),
